@@ -35,7 +35,7 @@ from . import C09 as S
 PROP = "C10"
 # obligations of the properties this one is downstream of are obligations of this check too (vk.runner.collect_obligations)
 UPSTREAM = ["C05"]
-GEN_REGIONS = ["Attrs"]
+GEN_REGIONS = ["Attrs", "ResultPurity"]
 THEOREMS = {
     "SpecKitV.Props.AttrsB": ["Gxx_dev_formula", "Gyy_dev_formula", "Gxy_dev_formula", "Hxy_dev_formula", "coh_dev_formula",
                               "Gxx_error_formula", "Gxy_error_formula", "Hxy_mag_error_formula", "Hxy_rad_error_formula",
@@ -47,6 +47,9 @@ THEOREMS = {
     # statistical meaning of the generated Gxx_dev / Gxx_error under the standard model (K pairwise independent periodogram values, mean mu, variance mu^2)
     "SpecKitV.Props.StatModel": ["mean_estimator_unbiased", "mean_estimator_variance", "Gxx_dev_is_sd_at_truth", "Gxx_error_is_relative_sd",
                                  "periodogram_exp_law_cv_one", "StatModel.hypotheses_satisfiable"],
+    # no method of a result writes in place an array its cache holds (region ResultPurity: buffer effects of every SpectrumResult method, regenerated
+    # each run) — the quantities of this property are read off that cache, in any order, possibly after plot() / get_measurement() / to_dataframe()
+    "SpecKitV.Props.ResultPurityGen": ["gen_result_methods_write_no_cached_array", "gen_result_methods_pure", "gen_session_pure", "cRun_clean_of_clean"],
 }
 CONTRACTS = ["np.arcsin / np.sqrt / np.rad2deg are the real functions arcsin, sqrt, x*180/pi up to rounding"]
 ASSUMPTIONS = ["theorems are over the reals for the Lean translation of SpectrumResult.__getattr__ (the `_dev`/`_error` branch), for all 0 < g <= 1, n >= 1, "
